@@ -4,10 +4,8 @@ set -e
 cd "$(dirname "$0")"
 export GOFLAGS=-mod=mod GOPROXY=off CARGO_NET_OFFLINE=true PIP_NO_INDEX=1
 mkdir -p build evidence
-cd coq
-coq_makefile -f _CoqProject -o Makefile
-timeout 3000 make -j"$(nproc)"
-cd ..
+python3 -c "import checklib; checklib.coq_makefile()"
+(cd coq && timeout 3000 make -j"$(nproc)")
 # warm the Go build cache for the harness (best effort; each check rebuilds from /repo anyway)
 python3 - <<'PY' || true
 import sys; sys.path.insert(0, '.')
